@@ -7,6 +7,7 @@ import ACModel.Driver.Select
 import ACModel.Driver.Pipeline
 import ACModel.Driver.Multi
 import ACModel.Driver.History
+import ACModel.Driver.Measures
 /-
   acdriver: JSON-lines driver around the executable model and the specification predicates.
   One request per line on stdin, one response per line on stdout.
@@ -41,6 +42,7 @@ def dispatch (j : Json) : R Json := do
   | "judge.C05" => DriverDisc.judgeC05 j
   | "multi.assemble" => DriverMulti.assembleReq j
   | "judge.history" => DriverHist.judge j
+  | "measure.exact" => DriverMeasures.exact j
   | o => throw s!"unknown request {o}"
 
 def handleLine (line : String) : String :=
